@@ -288,6 +288,32 @@ def points(case, ctx):
         o = Buf(64, fill=0)
         ret = l.sm2_z256_point_to_bytes(a, o)
         ctx.check(ret == 1 and o.raw() == M.i2b(A[0]) + M.i2b(A[1]), "point_to_bytes", "pt/to_bytes")
+    else:
+        # the predicate on triples with Z = 0: the Jacobian equation Y^2 = X^3 + a X Z^4 + b Z^6 reads Y^2 = X^3 there.  Every form of
+        # the point at infinity satisfies it - the two input forms, what neg / dbl / add make of them, what P + (-P) gives - and a
+        # triple (c : c' : 0) that does not is no point at all
+        def raw3(X, Y, Z):
+            t = Buf(96, fill=0)
+            t.write(b"".join(to_mont_p(v % M.P).to_bytes(32, "little") for v in (X, Y, Z)))
+            return t
+        ctx.check(l.sm2_z256_point_is_on_curve(a) == 1, "point_is_on_curve rejects the point at infinity in the form %s (lam=%x)" %
+                  ("(0:0:0)" if ps["inf"] == 2 else "(l^2:l^3:0)", lamA), "pt/on_curve/infinity")
+        for nm, fn, args in (("neg", l.sm2_z256_point_neg, (a,)), ("dbl", l.sm2_z256_point_dbl, (a,)), ("add(A, A)", l.sm2_z256_point_add, (a, a))):
+            r = Buf(96, fill=0xA5); fn(r, *args)
+            ctx.check(l.sm2_z256_point_is_on_curve(r) == 1, "point_is_on_curve rejects %s of the point at infinity (lam=%x): raw %s" % (nm, lamA, pt_raw(r)),
+                      "pt/on_curve/infinity/" + nm.split("(")[0])
+        if Bp is not None:
+            r = Buf(96, fill=0xA5); l.sm2_z256_point_sub(r, b, b)
+            ctx.check(l.sm2_z256_point_is_on_curve(r) == 1, "point_is_on_curve rejects B - B for B=%s lamB=%x: raw %s" % (Bp, lamB, pt_raw(r)), "pt/on_curve/infinity/sub")
+            baff = Buf.of(pt_in(M.neg(Bp)).raw()[:64])
+            r = Buf(96, fill=0xA5); l.sm2_z256_point_add_affine(r, b, baff)
+            ctx.check(l.sm2_z256_point_is_on_curve(r) == 1, "point_is_on_curve rejects add_affine(B, -B) for B=%s lamB=%x: raw %s" % (Bp, lamB, pt_raw(r)),
+                      "pt/on_curve/infinity/add_affine")
+        c, c2 = lamA % M.P, lamB % M.P
+        for (X, Y) in ((c, c), (c, c2), (c * c, c * c * c + 1), (c * c + 1, c * c * c)):
+            want = 1 if (Y * Y - X * X * X) % M.P == 0 else 0
+            got = l.sm2_z256_point_is_on_curve(raw3(X, Y, 0))
+            ctx.check(got == want, "point_is_on_curve(%x : %x : 0) = %d, Y^2 = X^3 is %s" % (X % M.P, Y % M.P, got, bool(want)), "pt/on_curve/z-zero-triple")
     eq = l.sm2_z256_point_equ(a, b)
     if A is not None and Bp is not None:
         ctx.check(eq == (1 if A == Bp else 0), "point_equ(A,B)=%d for A=%s B=%s" % (eq, A, Bp), "pt/equ")
